@@ -661,7 +661,7 @@ def minimize_lbfgsb(
         istate.task_str = "CONVERGENCE: NORM_OF_PROJECTED_GRADIENT_<=_PGTOL"
         istate.is_success = True
         istate.warnflag = 1
-    elif istate.nit == maxiter:
+    elif istate.nit >= maxiter:
         istate.task_str = "STOP: TOTAL NO. of ITERATIONS REACHED LIMIT"
         istate.is_success = True
         istate.warnflag = 1
